@@ -42,6 +42,11 @@ chk("C08", "MIR CFG must-pass-through: every non-step exit of the interpreter lo
     "Trusted: rustc MIR. Decides the state-restoration clause; equality of printed output additionally assumes steps are deterministic.",
     "DESIGN.md section 4 C08")
 
+chk("C26", "MIR CFG: exit(1) edge-dominated by failures>0 and reached unconditionally; sibling agreement of the two failure-count closures; per-iteration must-pass pop_to_toplevel and min=max=1 verdict rows",
+    "The exit-status clause and the per-test reset clause hold on every CFG path of run_tests_in_files and eval_tests; counts printed and counts deciding the exit status are computed by the same predicate over the same summary.",
+    "Trusted: rustc MIR. Independence with respect to namespace-level state (definitions a test mutates) is not decided.",
+    "DESIGN.md section 4 C26")
+
 ENGINES = [
  {"name": "gfacts", "path": "tools/gfacts", "kind_free_text": "rustc_private driver (nightly) dumping the type-checked MIR (CFG, resolved callees, asserts, places with field names) of every function of the garden crate as JSON; run as RUSTC_WORKSPACE_WRAPPER under cargo +nightly check on /repo's current tree"},
  {"name": "gshape", "path": "tools/gshape", "kind_free_text": "syn-2 syntax tree dumper (match arms, patterns, literals, struct initialisers) for table/shape rules"},
